@@ -233,6 +233,13 @@ pub fn gen_script(rng: &mut Rng) -> Scenario {
             }
         }
     }
+    // one script in five switches debug mode on near its start (a GUI's debug check box): an
+    // engine in debug mode may explain itself with `info string` lines when it answers a
+    // command, never in response to a line it is supposed not to understand
+    if rng.chance(1, 5) {
+        let at = rng.usize_below(lines.len().min(2) + 1);
+        lines.insert(at, "debug on\n".to_string());
+    }
     match rng.below(4) {
         0 => {}
         1 | 2 => lines.push(if rng.chance(1, 4) { "quit".to_string() } else { quit_line(rng) }),
@@ -380,6 +387,8 @@ fn match_output(out: &[String], exp: &Expect) -> Result<(), String> {
 
 pub struct RunResult {
     pub outcome: Outcome,
+    /// per output line: number of input chunks delivered before it was written
+    pub out_after: Vec<u64>,
     pub out_lines: Vec<String>,
     pub out_partial: String,
     pub log_hash: u64,
@@ -441,6 +450,7 @@ pub fn run_scenario(sc: &Scenario, keep_log: bool) -> RunResult {
     let st = st.borrow();
     RunResult {
         outcome,
+        out_after: st.out_line_after_chunks.clone(),
         out_lines: st.out_lines.clone(),
         out_partial: st.out_partial.clone(),
         log_hash: st.log_hash,
@@ -476,6 +486,25 @@ pub fn judge(sc: &Scenario, r: &RunResult) -> Option<(String, String)> {
             format!("unterminated output {:?}", r.out_partial),
         ));
     }
+    // Line-by-line delivery (one read() = one line, no injected error): every output line
+    // can be attributed to the input line read last. Nothing at all - `info string` lines
+    // included - may be written in response to a blank line or a line the engine is not
+    // supposed to understand.
+    if sc.chunking == 0 && sc.read_error_before_line.is_none() && sc.eintr_every == 0 && r.out_after.len() == r.out_lines.len() {
+        for (o, after) in r.out_lines.iter().zip(r.out_after.iter()) {
+            let k = *after as usize;
+            if k == 0 || k > lines.len() {
+                continue;
+            }
+            let is_cmd = lines[k - 1].as_deref().map(|x| ["uci", "debug", "isready", "setoption", "register", "ucinewgame", "position", "go", "stop", "ponderhit", "quit"].contains(&first_token(x))).unwrap_or(false);
+            if !is_cmd {
+                return Some(("unknown_line_answered".into(), format!("input line {} ({:?}) is not a command, yet the engine wrote {:?} after reading it", k, lines[k - 1].as_deref().map(|x| x.chars().take(60).collect::<String>()), o)));
+            }
+        }
+    }
+    // `info string` lines may accompany the answer to any command (an engine in debug mode
+    // explains itself); they are not part of the answers themselves
+    let out_wo_info_strings: Vec<String> = r.out_lines.iter().filter(|l| !l.starts_with("info string")).cloned().collect();
     // Which prefixes of the input may legitimately have been processed?
     let mut candidates: Vec<&[Option<String>]> = vec![&lines[..]];
     if let Some(k) = sc.read_error_before_line {
@@ -487,7 +516,7 @@ pub fn judge(sc: &Scenario, r: &RunResult) -> Option<(String, String)> {
     let mut errs = vec![];
     for cand in candidates {
         let exp = expectation(cand);
-        match match_output(&r.out_lines, &exp) {
+        match match_output(&out_wo_info_strings, &exp) {
             Ok(()) => return None,
             Err(e) => errs.push(e),
         }
